@@ -211,8 +211,8 @@ theorem wds_ondemand_record_monotone (idx : Index) (w : WR) (r : WReq) (nn : Lis
         split at h <;> simp at h
 
 /-- **On-demand request answers what was asked.**  Each resource name the client subscribes to in
-    a request is, after the response, held at its current version if it exists; and it is listed as
-    removed if it does not (neither as a name nor as an address). -/
+    a request is, after the response, held at its current version if it exists.  (If it does not -
+    neither as a name nor as an address - it is listed as removed: `wds_ondemand_request_not_found`.) -/
 theorem wds_ondemand_request_answers (idx : Index) (hnd : (idx.map (·.name)).Nodup) (w : WR) (hw : w.wildcard = false)
     (sub : List String) (held : Held) (x : Wl) (hx : x ∈ idx) (hsub : x.name ∈ sub) :
     let g := wdsGenerate idx w { isReq := true, sub := sub }
